@@ -45,7 +45,8 @@ mutual
     | yield (code : String)
     | hook (name : String)
     | append (oos : Int) (out : Nat)
-    | appendC (oos : Int) (out : Nat) (e : IExpr)
+    /-- `each`: the action belongs to a foreach `do` block (it runs for the byte being read) -/
+    | appendC (oos : Int) (out : Nat) (each : Bool) (e : IExpr)
     | set (out : Nat) (e : IExpr)
     | setStr (out : Nat) (bytes : List Nat)
     | delete (out : Nat)
@@ -100,6 +101,9 @@ structure SemOpts where
   /-- leave loose actions (non-self-referential assignments, string assignments, deletes) out of
       the event traces: used to attribute a mismatch to their scheduling alone -/
   dropLoose : Bool := false
+  /-- reference only: the per-byte actions of a foreach around a `wait` also run when the wait
+      meets end-of-input (what the compiled machines do; used to attribute a recorded finding) -/
+  waitEndForeach : Bool := false
   deriving Repr, Inhabited
 
 /-! ### Events and questions -/
@@ -214,6 +218,9 @@ structure ArmCtx where
   adv : Nat
   /-- `goto repeatswitch` / `goto fall_n`: dispatch the same symbol again at a state -/
   redispatch : Int → Nat → CTree
+  /-- out-of-space of a constant append (`s += [e]`): on a consuming arm the byte the arm matched
+      stays consumed and the handler starts at the next byte; otherwise as `redispatch` -/
+  oosConst : Int → CTree
 
 mutual
   /-- Tree of an action list.  `st` is the current value of `state->state`; `kNext st` continues
@@ -230,8 +237,8 @@ mutual
     | .append oos out, st, kNext, _ =>
         .ask (.full out) (c.redispatch oos c.adv)
           (.emit (.append out (lastArg c.o c.x)) (kNext st))
-    | .appendC oos out e, st, kNext, _ =>
-        .ask (.full out) (c.redispatch oos c.adv)
+    | .appendC oos out each e, st, kNext, _ =>
+        .ask (.full out) (if each then c.redispatch oos c.adv else c.oosConst oos)
           (.emit (.appendC out (subst c.o c.x e)) (kNext st))
     | .set out e, st, kNext, _ =>
         if c.o.dropLoose && !(e.readsOut out) && !e.readsLast then kNext st
@@ -266,7 +273,10 @@ def Machine.armTree (M : Machine) (o : SemOpts) (si : Int) (src : St) (a : Arm) 
   let imm := M.immediateDone o a fromEnd
   let early := a.acts.mayYield && !fromEnd && !a.fall && !imm
   let adv' := if early then adv + 1 else adv
-  let c : ArmCtx := { o := o, x := x, adv := adv', redispatch := redispatch }
+  let c : ArmCtx := { o := o, x := x, adv := adv', redispatch := redispatch,
+                      oosConst := fun h =>
+                        if !a.fall && !fromEnd then .leaf (.next h (if early then adv' else adv' + 1))
+                        else redispatch h adv' }
   let epilogue : Int → CTree := fun st =>
     if a.fall then
       (if a.target ≥ 0 then redispatch st adv' else fallOut src.accepting x st adv')
@@ -344,7 +354,8 @@ def Machine.smS (M : Machine) (o : SemOpts) : SM Nat AEv Quest where
   start := M.states.size
   step := fun s x =>
     if s = M.states.size then
-      let ctx : ArmCtx := { o := o, x := 0, adv := 0, redispatch := fun st _ => .leaf (.next st 0) }
+      let ctx : ArmCtx := { o := o, x := 0, adv := 0, redispatch := fun st _ => .leaf (.next st 0),
+                             oosConst := fun st => .leaf (.next st 0) }
       let t : CTree := M.startActs.tree ctx M.start (fun st => .leaf (.next st 0)) (fun st => .leaf (.next st 0))
       t.bind fun l =>
         match l with
